@@ -241,7 +241,10 @@ def check_C09(tier):
     results = sweep.run(tier, rng, inputs=False, n_random=800 if tier == "quick" else 20000,
                         n_tiny=800 if tier == "quick" else None, big=30 if tier == "quick" else 300)
     ties = cert_ties(results, ["gramWF", "certA", "certCanon"])
-    ties += mirror_ties(results, ("STATE", "GOTO"), "LR(0) states and transitions (literal numbering)")
+    ties += mirror_ties(results, ("STATE", "GOTO"), "LR(0) states and transitions (literal numbering) vs the verified generator buildL")
+    for r in results:
+        if r.refused is None and any(l.startswith("X coreLR0=buildL FAIL") for l in r.raw_model):
+            ties.append({"what": "the array-based mirror Core.buildLR0 differs from the verified generator buildL", "case": r.id, "src": r.case["src"]})
     violations, samples = [], []
     nstates = 0
     for r in results:
@@ -283,8 +286,9 @@ def check_C09(tier):
     return common.conclude(pid, tier, "proof", proof, ties, violations, cov, ["grammars below the 2000-state cap"])
 
 
-C09_THEOREMS = ["Y.Props.C09_canonical", "Y.Props.C09_hygiene", "Y.Props.C09_closure"]
-C09_MODULES = ["Yv.Props.C09"]
+C09_THEOREMS = ["Y.Props.C09_canonical", "Y.Props.C09_hygiene", "Y.Props.C09_closure",
+                "Y.Props.C09_gen", "Y.Props.C09_gen_canonical", "Y.Props.C09_gen_layout", "Y.Props.C09_gen_fuel"]
+C09_MODULES = ["Yv.Props.C09", "Yv.Props.C09gen"]
 
 
 # ------------------------------------------------------------------------------------------- C04
@@ -542,8 +546,29 @@ def check_C04(tier):
             continue
         if r.case["kind"] == "expr" and not r.case.get("spec", {}).get("layered"):
             expr_results.append(r)
+        # rule precedence: that of its %prec symbol if given, else of the LAST right-hand-side symbol that has one
+        sp = r.case.get("spec")
+        if sp is not None and len(sp["rules"]) + 1 == len(r.g.rules):
+            declared = {}
+            for li, (kind, syms) in enumerate(sp.get("prec", [])):
+                for sname in syms:
+                    declared[sym_name(sname)] = li + 1
+            names = {k: v["name"] for k, v in r.g.syms.items()}
+            for i, ru in enumerate(sp["rules"]):
+                want_p = None
+                for sname in ru["rhs"]:
+                    if sym_name(sname) in declared:
+                        want_p = sym_name(sname)
+                if ru.get("prec"):
+                    want_p = sym_name(ru["prec"]) if sym_name(ru["prec"]) in declared else None
+                ps = r.g.rules[i + 1][2]
+                got_p = names.get(ps) if ps >= 0 else None
+                if got_p != want_p:
+                    violations.append(viol(pid, r, "a rule carries the wrong precedence symbol",
+                                           {"rule": i + 1, "rhs": ru["rhs"], "prec_directive": ru.get("prec"),
+                                            "implementation": got_p, "expected": want_p}))
         rows = r.rows()
-        err = len(rows) + 100
+        err, acc_code = r.codes()      # the property does not fix the numeric codes: use the implementation's own
         for (q, a), cs in cell_candidates(r).items():
             if len(cs) != 2:
                 continue
@@ -551,7 +576,7 @@ def check_C04(tier):
             if want is None:
                 continue
             cells += 1
-            exp = err if want == "error" else (want["idx"] if want["kind"] == "S" else (-want["idx"] if want["idx"] != 0 else err + 100))
+            exp = err if want == "error" else (want["idx"] if want["kind"] == "S" else (-want["idx"] if want["idx"] != 0 else acc_code))
             got = rows[q][a]
             if len(samples) < 3:
                 samples.append({"case": r.id, "state": q, "symbol": a, "candidates": cs, "cell": got})
@@ -640,9 +665,20 @@ def check_C05(tier):
     results = sweep.run(tier, rng, inputs=False, n_random=500 if tier == "quick" else 10000, big=30 if tier == "quick" else 300)
     ties += mirror_ties(results, ("PACKED", "ACT", "OFF", "CHK", "ADEF", "GDEF"), "split + packed arrays")
     cells = 0
+    simple = 0
     for r in results:
         if r.refused is not None or not r.packed():
             continue
+        # hypothesis of C05_split_lookup_simple evaluated on the implementation's dense table
+        ds = r.V.get("denseSimple")
+        if ds is not None and ds[0] == "ok":
+            simple += 1
+        ds = r.V.get("denseWF")
+        if ds is None or ds[0] != "ok":
+            ties.append({"what": "hypothesis DenseWF of C05_split_lookup does not hold on the implementation's dense table",
+                         "case": r.id, "detail": ds, "src": r.case["src"]})
+        if any(l.startswith("X packA=PackX FAIL") for l in r.raw_model):
+            ties.append({"what": "the array-based mirror PackX differs from the verified model packA on the split table", "case": r.id, "src": r.case["src"]})
         v = r.V.get("packLookup")
         rows = r.rows()
         cells += len(rows) * len(rows[0])
@@ -673,13 +709,15 @@ def check_C05(tier):
     cov = std_cov(results, len(mats) + cells + pairs,
                   "random integer matrices (1x1..12x12, densities 0-100%, negatives, equal rows, empty first column) + the F5 matrix through PackTable/UnPackTable; " + GEN_RULE +
                   "; every (state, symbol) cell of every packed grammar looked up through the implementation's five arrays with the generated Action logic",
-                  samples, {"matrices": len(mats), "cells": cells, "packed_vs_unpacked_runs": pairs,
-                            "partial": ["the generated Action method itself is tied to the lookup model by execution of the compiled parsers, not by a translated definition"]})
+                  samples, {"matrices": len(mats), "cells": cells, "packed_vs_unpacked_runs": pairs, "dense_tables_meeting_DenseSimple": simple,
+                            "partial": ["PackTable/TrySplitTable themselves are hand-modelled (packA/trySplit) and tied by the per-run array comparison; the Action method of both Go templates is translated (Gen/Action.lean) and proved equal to the lookup model"]})
     return common.conclude(pid, tier, "proof", proof, ties, violations, cov, [])
 
 
-C05_THEOREMS = ["PackA.C05_pack_roundtrip", "PackA.C05_unpack_pack", "PackA.place_inv", "PackP.lookup_correct"]
-C05_MODULES = ["Yv.Props.C05"]
+C05_THEOREMS = ["PackA.C05_pack_roundtrip", "PackA.C05_unpack_pack", "PackA.place_inv", "PackP.lookup_correct",
+                "SplitA.C05_split_lookup", "SplitA.C05_split_lookup_any", "SplitA.C05_split_lookup_simple", "SplitA.denseWF_of_simple"]
+C05_THEOREMS += ["C05c.C05_action_global", "C05c.C05_action_object", "C05c.C05_action_is_dense"]
+C05_MODULES = ["Yv.Props.C05", "Yv.Props.C05b", "Yv.Props.C05c"]
 
 
 def parse_blocks(txt, begin, end):
@@ -1173,7 +1211,10 @@ C17_LEVEL = "proof"
 # ------------------------------------------------------------------------------------------- C16
 
 C16_NAMES_T = ["NUM", "IDENT", "tok_1", "T9", "_x", "Étoile", "λ", "KW_IF", "a1b2", "EOFTOK", "Tok", "x"]
-C16_NAMES_N = ["expr", "stmt_list", "S1", "_n", "Program", "opt", "é", "n0", "Z"]
+# nonterminal names never become identifiers of the generated code (only tokens do), so they may be
+# keywords or emitter-internal names of either target language
+C16_NAMES_N = ["expr", "stmt_list", "S1", "_n", "Program", "opt", "é", "n0", "Z",
+               "function", "class", "func", "var", "new", "default", "import", "Parser", "ValType", "translate", "StateSym"]
 C16_LITS = list("+-*/()=<>!&^~,.#@[]?:;|$_azAZ09") + ['"', "%", "{", "}", "`"]
 
 
@@ -1359,9 +1400,21 @@ def check_C15(tier):
                            "replay": {"property": pid, "race_report": res["race"]}})
     evals = 0
     for c in res["usable"]:
+        # reference = the same implementation parsing the input ALONE in a fresh process; the Lean
+        # model's pure-function result must equal it (tie), histories/contexts must equal it (property)
         exp = {}
         for i, w in enumerate(c["base"]):
-            exp[w] = res["mruns"].get((c["id"], i))
+            so = res.get("solo", {}).get((c["id"], w))
+            mo = res["mruns"].get((c["id"], i))
+            if so is None:
+                ties.append({"what": "no solo reference run", "case": c["id"], "input": w})
+                exp[w] = mo
+                continue
+            sref = (xrun.norm_verdict(so[0]), so[1] or [], so[2])
+            exp[w] = sref
+            if mo is not None and not (sref[0] == "loop" or mo[0] == "loop") and (mo[0], mo[1], mo[2]) != sref:
+                ties.append({"what": "driver model differs from the solo run of the compiled parser", "case": c["id"], "input": w,
+                             "impl": list(sref), "model": list(mo)})
         h = res["meta"]["%s|h" % c["id"]]["pkg"]
         k = res["meta"]["%s|c" % c["id"]]["pkg"]
 
@@ -1388,13 +1441,21 @@ def check_C15(tier):
                 if got != (e[0], e[1], e[2]):
                     violations.append(xviol15(pid, res, c, variant, label, w, got, e))
         cmp("global parser: history of parses with ParserInit() in between", c["hist"], res["out"].get(h), "h")
-        cmp("fresh context per parse", c["base"], res["out"].get(k + ":F"), "c")
+        # the -o form is compared with ITS OWN fresh-context results
+        fresh = res["out"].get(k + ":F")
+        if fresh is not None:
+            for w, r in zip(c["base"], fresh):
+                exp[w] = norm(r)
         cmp("one context reused over a history with c.ParserInit() in between", c["hist"], res["out"].get(k + ":R"), "c")
         conc = res["out"].get(k + ":C")
         if conc is not None:
             for w, rounds in zip(c["base"][:16], conc):
                 cmp("distinct contexts running concurrently (3 rounds each)", [w] * len(rounds), rounds, "c")
         if res["node"]:
+            for w in c["base"]:
+                so = res.get("tssolo", {}).get((c["id"], w))
+                if so is not None:
+                    exp[w] = (xrun.norm_verdict(so[0]), so[1] or [], so[2])
             tr = res["tsruns"].get(c["id"], [])
             cmp("TypeScript parser: history with initialize() in between", [x[0] for x in tr], [[x[1], x[2], x[3]] for x in tr], "ts")
             if len(tr) != len(c["hist"]):
@@ -1461,7 +1522,7 @@ def run_front(cases, timeout=900):
                       "model": model.get(c["id"], [])} for c in cases}
 
 
-def front_stage_ties(cid, rec, src, stages=("TOK", "AST", "GRAMMAR", "SYM", "RULE", "REFUSE")):
+def front_stage_ties(cid, rec, src, stages=("TOK", "AST", "GRAMMAR", "SYM", "RULE", "REFUSE"), refuse_class=True):
     """model vs implementation, stage by stage (ASCII texts only)"""
     ml = [l[2:] for l in rec["model"] if l.startswith("M ")]
     if any(l in ("NONASCII", "NONUTF8") for l in ml):
@@ -1470,10 +1531,20 @@ def front_stage_ties(cid, rec, src, stages=("TOK", "AST", "GRAMMAR", "SYM", "RUL
     for st in stages:
         a = [l for l in rec["impl"] if l.split()[0] == st]
         b = [l for l in ml if l.split()[0] == st]
+        if st == "SYM":
+            # the nullable flag is a by-product of a later stage (C02/C03/C12 look at it); the front-end
+            # properties C10/C11 do not depend on it
+            a = [" ".join(l.split(" ")[:6] + l.split(" ")[7:]) for l in a]
+            b = [" ".join(l.split(" ")[:6] + l.split(" ")[7:]) for l in b]
         if st == "REFUSE":
             a = [" ".join(l.split()[:2]) for l in a]
             a = [x if not x.startswith("REFUSE panic") else "REFUSE panic" for x in a]
             b = [x if not x.startswith("REFUSE panic") else "REFUSE panic" for x in b]
+            if not refuse_class:
+                # only "stops with a diagnostic" matters (C13); which diagnostic comes first on texts
+                # outside the grammar domain (e.g. a garbled %start) is not mirrored
+                a = ["REFUSE" for _ in a]
+                b = ["REFUSE" for _ in b]
         if a != b:
             k = next((i for i in range(max(len(a), len(b))) if i >= len(a) or i >= len(b) or a[i] != b[i]), 0)
             ties.append({"what": "front-end mirror stage differs: " + st, "case": cid, "src": src[:2000],
@@ -1671,6 +1742,17 @@ def c11_spec(rng):
     tags = {t: "val" for t in sp["tokens"] if rng.random() < 0.4}
     sp["all_named"] = tokens
     sp["tagsel"] = tags
+    sp["eof_token"] = rng.random() < 0.3
+    # numbers given in a LATER declaration than the first mention (`%token <val> NUM` … `%token NUM 5`),
+    # chosen just above the largest code so far, where the automatic range would go next
+    sp["redecl"] = []
+    unnumbered = [t for t in sp["tokens"] if t not in sp["nums"]]
+    if unnumbered and rng.random() < 0.5:
+        top = max([2] + list(sp["nums"].values()) + [ord(l[1]) for l in lits])
+        t = rng.choice(unnumbered)
+        n = top + rng.randint(1, 3)
+        sp["redecl"].append((t, n))
+        sp["late_nums"] = {t: n}
     return sp
 
 
@@ -1714,7 +1796,7 @@ def check_C11(tier):
             v = terms.get(sym_name(l))
             if v is not None and v["value"] != ord(l[1]):
                 why = "literal %s numbered %d instead of its character code" % (l, v["value"])
-        for t, nnum in sp["nums"].items():
+        for t, nnum in list(sp["nums"].items()) + list(sp.get("late_nums", {}).items()):
             if terms.get(t, {}).get("value") != nnum:
                 why = "token %s declared with number %d is numbered %s" % (t, nnum, terms.get(t, {}).get("value"))
         codes = [v["value"] for nm, v in terms.items()]
@@ -1732,6 +1814,8 @@ def check_C11(tier):
                 continue
             sc = xrun.scrape(os.path.join(work, "d%d.%s" % (i, "go" if target == "go" else "ts")), target)
             want_consts = {nm: v["value"] for nm, v in terms.items() if nm != "$" and not nm.startswith("$operator")}
+            if sp.get("eof_token"):
+                want_consts["EOF"] = -1
             if sc["consts"] != want_consts:
                 why = "%s: constants %s differ from the token codes %s" % (target, sc["consts"], want_consts)
             want_tr = {v["value"]: ids[nm] for nm, v in terms.items()}
@@ -1768,7 +1852,7 @@ def c12_spec(rng):
         r = rng.choice(sp["rules"])
         r["rhs"].insert(rng.randint(0, len(r["rhs"])), "UNDEF")
     elif plant == "norule_type":
-        sp["extra_type"] = "Ghost"
+        sp["extra_type"] = rng.choice(["Ghost", "AAA", "zz", "N00"])
     elif plant == "unproductive_self":
         sp["nts"] = nts + ["U"]
         sp["rules"].append({"lhs": "U", "rhs": [t, "U"], "prec": None})
@@ -1790,6 +1874,7 @@ def c12_spec(rng):
         sp["rules"].append({"lhs": "U", "rhs": [t, "W"], "prec": None})
         rng.choice(sp["rules"][:-3])["rhs"].insert(0, "W")
     sp["plant"] = plant
+    sp["eof_token"] = rng.random() < 0.3
     return sp
 
 
@@ -1978,7 +2063,7 @@ def check_C13(tier):
             violations.append({"key": common.finding_key({"text": c["src"], "mode": "in-process"}),
                                "what": "front end does not finish on an input text (%s)" % d["hang"],
                                "replay": {"property": pid, "input_text": c["src"], "command": "parser.ParseAndBuild in-process"}})
-        ties += front_stage_ties(c["id"], rec[c["id"]], c["src"], stages=("TOK", "AST", "GRAMMAR", "REFUSE"))
+        ties += front_stage_ties(c["id"], rec[c["id"]], c["src"], stages=("TOK", "AST", "GRAMMAR", "REFUSE"), refuse_class=False)
     samples.append({"input_text": texts[30][:200] if len(texts) > 30 else "", "outcome": [r[2] for r in results if r[0] == 30]})
     cov = {"evaluations": len(results), "distinct_nontrivial": len(texts),
            "rule": "distinct input texts: hand-written truncations, every %d-th prefix of the repository's example grammars and of rendered random files, random edits (delete / insert / replace / duplicate with brace, quote, comment and directive fragments); each text through `yaccgo generate go`, `yaccgo debug` (and every 7th through `generate typescript`) as child processes with a %d s deadline, 16 at a time; a hang is re-run alone before it is reported; the ASCII texts also through the in-process front end against the Lean front-end model" % (23 if tier == "quick" else 5, DEADLINE),
@@ -2156,6 +2241,24 @@ def check_C18(tier):
             k = next((i for i in range(max(len(il), len(ml))) if i >= len(il) or i >= len(ml) or il[i] != ml[i]), 0)
             ties.append({"what": "views model differs from DrawGrammar's graph", "case": c["id"], "src": c["src"][:1500],
                          "impl": il[k][:200] if k < len(il) else "<missing>", "model": ml[k][:200] if k < len(ml) else "<missing>"})
+    # the verified listing model (C18_listing_*) must print exactly the two sections of the debug listing
+    # (state section in order; lookahead section as a multiset of lines: the code ranges over a map there)
+    listing_lines = 0
+    for c in safe:
+        b, mb = blocks.get(c["id"], []), mblocks.get(c["id"], [])
+        if not b or any(l.startswith("REFUSE") for l in b):
+            continue
+        il = [l for l in b if l.startswith("HLISTS ")]
+        ml = [l[2:] for l in mb if l.startswith("M HLISTS ")]
+        ila = sorted(l for l in b if l.startswith("HLISTLA "))
+        mla = sorted(l[2:] for l in mb if l.startswith("M HLISTLA "))
+        listing_lines += len(il) + len(ila)
+        for what, x, y in (("state section", il, ml), ("lookahead section", ila, mla)):
+            if x != y:
+                k = next((i for i in range(max(len(x), len(y))) if i >= len(x) or i >= len(y) or x[i] != y[i]), 0)
+                dec = lambda h: bytes.fromhex(h.split(" ", 1)[1]).decode(errors="replace") if " " in h else h
+                ties.append({"what": "listing model differs from the debug listing (%s)" % what, "case": c["id"], "src": c["src"][:1500],
+                             "impl": dec(x[k])[:200] if k < len(x) else "<missing>", "model": dec(y[k])[:200] if k < len(y) else "<missing>"})
     nstates = 0
     accepted = 0
     for c in safe:
@@ -2171,6 +2274,9 @@ def check_C18(tier):
         las = [(int(f[1]), int(f[2]), [int(x) for x in f[3:]]) for f in (l.split() for l in lines) if f[0] == "LA"]
         n = len(rows)
         err, acc = n + 100, n + 200
+        for l in lines:
+            if l.startswith("CODES "):
+                err, acc = int(l.split()[1]), int(l.split()[2])   # the implementation's own codes
         nstates += n
         why = None
         if any(l.startswith("DOTPANIC") for l in lines):
@@ -2243,9 +2349,11 @@ def check_C18(tier):
                     exp_items.append(names[lhs] + "-->" + "".join(" %s " % names[x] for x in rhs[:d]) + "@" +
                                      "".join(" %s " % names[x] for x in rhs[d:]))
                 exp_gotos = ["at %s goto %d " % (names[x], p2) for (q2, x, p2) in gotos if q2 == bi]
-                if got_items != exp_items:
+                # the property is about what is shown, not about blanks: compare up to white space
+                ws = lambda ls: [x.split() for x in ls]
+                if ws(got_items) != ws(exp_items):
                     why = "listing items of state %d: %s, the state holds %s" % (bi, got_items, exp_items)
-                elif got_gotos != exp_gotos:
+                elif ws(got_gotos) != ws(exp_gotos):
                     why = "listing transitions of state %d: %s, the automaton has %s" % (bi, got_gotos, exp_gotos)
         if why is None and "==========Show LookAhead SET===============" in listing:
             sec = listing.split("==========Show LookAhead SET===============")[1].split("\n")
@@ -2268,13 +2376,15 @@ def check_C18(tier):
             samples.append({"case": c["id"], "states": n, "dot_node_0": nodes.get("state_0", ("", ""))[1][:200]})
     cov = {"evaluations": nstates, "distinct_nontrivial": accepted,
            "rule": GEN_RULE + "; per grammar the graph object returned by DrawGrammar (nodes, item texts, edges, reduce annotations, accept decoration) and the stdout of the debug mode (states, items, transitions, lookahead sets) are parsed and compared with LR0Closure / GTable / the hooked lookaheads of the same run; evaluations = states",
-           "samples": samples, "programs": accepted, "disagreements_checked": len(violations), "trusted_base": TRUSTED + ["gographviz graph object"]}
+           "samples": samples, "programs": accepted, "listing_lines_compared_with_model": listing_lines, "disagreements_checked": len(violations), "trusted_base": TRUSTED + ["gographviz graph object"]}
     return common.conclude(pid, tier, C18_LEVEL, proof, ties, violations, cov,
                            ["symbol names do not contain the renderers' own separators (| { } < > quotes)"])
 
 
 C18_THEOREMS = ["Y.Props.C18_views", "Y.Props.C18_determines", "Y.Props.C18_determined", "Y.Props.dot_edges", "Y.Props.dot_nodes"]
-C18_MODULES = ["Yv.Props.C18"]
+C18_THEOREMS += ["Y.Props.C18_listing_states", "Y.Props.C18_listing_la", "Y.Props.C18_listing_determines", "Y.Props.C18_listing_determines_auto",
+                 "Y.Props.C18_listing_determined", "Y.Props.C18_listing_mem", "Y.Props.list_item_str_injective", "Y.Props.list_goto_str_injective", "Y.Props.la_line_injective"]
+C18_MODULES = ["Yv.Props.C18", "Yv.Props.C18b"]
 C18_LEVEL = "proof"
 
 
